@@ -25,7 +25,7 @@ def canon_deep(o, depth=0):
     if isinstance(o, (float, np.floating)):
         return "nan" if math.isnan(o) else "f" + float(o).hex()
     if isinstance(o, str):
-        return "s" + repr(o)
+        return "s" + repr(str.__str__(o) if type(o) is str else str(getattr(o, "value", o)))   # a StrEnum member equals its string
     if isinstance(o, bytes):
         return "b" + o.hex()
     if isinstance(o, np.ndarray):
